@@ -93,7 +93,13 @@ func TestDecodeTotalBounded(t *testing.T) {
 		nt := false
 		for _, validate := range []bool{false, true} {
 			ex := map[string]any{"input": hex.EncodeToString(input), "mutation": mut.Label, "validate": validate}
-			var out serixgen.Outcome
+			// warm-up: the first decode of a freshly built reflect type fills reflect's and serix' type caches (the harness
+			// creates thousands of types per process, and reflect's internal sync.Maps re-copy themselves as they grow);
+			// a decoder that allocates from a length field does so on every call, so the second call is measured
+			out := c.Decode(input, validate)
+			if out.Panic != nil {
+				violation(rt, check, c, ex, "Decode panicked: %v", out.Panic)
+			}
 			alloc := measure(func() { out = c.Decode(input, validate) })
 			if out.Panic != nil {
 				violation(rt, check, c, ex, "Decode panicked: %v", out.Panic)
